@@ -220,6 +220,20 @@ add(
     "3/C14",
 )
 
+add(
+    "C07",
+    "Closed forms of the basis functions from the real megacomplex / shape code and the kernels' Python source on symbolic "
+    "parameters and axis points: damped oscillation without IRF (column <osc>_cos = Re, <osc>_sin = Im of exp(-gamma t - i "
+    "omega t), 1-3 oscillations); with Gaussian IRF only the part that needs no complex error function: columns are 0 for "
+    "time points more than 5 sigma before the effective IRF position centre - shift_i (the decay model's position), for "
+    "all parameters; coherent artifact columns = Gaussian and its first / second derivative forms at centre - shift_i with "
+    "own-or-IRF width; Gaussian shape amplitude / half maximum / symmetry / formula; skewed Gaussian formula, theta <= 0 "
+    "mask, |b| <= 1e-8 dispatch; inverted / scaled spectral axes.",
+    COMMON_NOTE + "NOT decided: oscillation / PFID columns inside the pulse region (complex error function), 'proportional to "
+    "the convolution' as an analytic fact, continuity as skewness -> 0, floating point ranges.",
+    "3/C07",
+)
+
 ALL = [f"C{i:02d}" for i in range(1, 21)]
 
 
